@@ -28,6 +28,7 @@ func checkC01(c *km.Ctx) {
 	r.NotDecided = []string{"the 2^9 x 40 x 3 request matrix as executions", "go-jose signature verification and crypto/tls chain verification", "liveness beyond reachability of the signing call"}
 	r.Assume = []string{"go/types + go/ssa model the source faithfully", "go-jose rejects forged tokens; crypto/tls verifies client chains"}
 
+	r.Rule("R-C01-6", "the admit-any mask covers every credential bit the server can put into a session (a credential the operator lists is not refused at the door)", 1)
 	r.Rule("R-C01-1", "every user-certificate signing call reachable from the certgen route is dominated by Unsealed ∧ Authed ∧ Sufficient ∧ target==auth user ∧ POST, and its user argument is the authenticated user name", 2)
 	r.Rule("R-C01-2", "the sufficient-level flag starts false and every assignment of true is controlled by exactly: listed=='password'; or listed==K ∧ session has bit K (same constant name in proto and main); or session has the U2F bit", 3)
 	r.Rule("R-C01-3", "inside checkAuth every success return / credential bit is dominated by the verifier of its branch (cookie: verified, unexpired, level accepted; basic: limiter, password accepted; certificate: verified chain, helper success)", 5)
@@ -134,6 +135,7 @@ func checkC01(c *km.Ctx) {
 	// not pass as a keymaster user certificate: the deny-list and CA-separation obligations of the certificate
 	// verifier (C06's R-C06-4) belong to "the credential is valid" here as well
 	checkKeymasterSigned(c, s, "R-C01-3")
+	checkAnyMask(c, "R-C01-6")
 
 	// a session cookie counts as a credential only while its signed claims say so: issuer, audience, kind,
 	// not-before and expiry are the obligations of C04's consumers of the session token type, borrowed here
@@ -814,4 +816,26 @@ func isBoolFlagPhi(p *ssa.Phi) bool {
 		}
 	}
 	return true
+}
+
+// checkAnyMask: AuthTypeAny, the mask the endpoints that take "any credential" hand to checkAuth, contains every
+// single-credential constant. A mask spelled out from the names and missing one refuses sessions of that kind.
+func checkAnyMask(c *km.Ctx, rule string) {
+	consts := authTypeConsts(c)
+	anyV, has := consts["AuthTypeAny"]
+	if !has {
+		c.R.AnchorLost(rule, "constant AuthTypeAny")
+		return
+	}
+	var missing []string
+	for n, b := range consts {
+		if n == "AuthTypeAny" || n == "AuthTypeNone" || b == 0 {
+			continue
+		}
+		if anyV&b != b {
+			missing = append(missing, n)
+		}
+	}
+	sort.Strings(missing)
+	c.R.Add(rule, "cmd/keymasterd", "AuthTypeAny", "cmd/keymasterd/app.go", "AuthTypeAny & K == K for every credential constant K", sprintf("value=%#x missing=%v", anyV, missing), len(missing) == 0)
 }
